@@ -58,7 +58,10 @@ func (c *Ctx) nonMatching(sc *scenario) *party {
 }
 
 func checkC01(c *Ctx) {
-	c.rule = "scenarios: plaintext sizes cycling through {0, 1, cs-1, cs, cs+1, 2cs-1, 2cs, 2cs+1, 3cs} and random small; recipient lists of 1-5 drawn from X25519 / ssh-ed25519 / ssh-rsa / grease stub (with duplicates) or a single passphrase recipient; armor 1/3; a fixed random tape. For EVERY native recipient of the file: identity lists with the matching identity at a random position among 0-4 non-matching ones (other key, other type, other passphrase), plus the matching identity alone. Compared: file bytes (implementation vs model), plaintext, outcome, identities consulted. distinct_nontrivial = distinct (scenario, identity list) pairs that decrypt."
+	c.rule = "primitives of Crypto.v vs crypto/* and x/crypto on random inputs and passphrase files with every primitive in Gallina (ties C01g.v); scenarios: plaintext sizes cycling through {0, 1, cs-1, cs, cs+1, 2cs-1, 2cs, 2cs+1, 3cs} and random small; recipient lists of 1-5 drawn from X25519 / ssh-ed25519 / ssh-rsa / grease stub (with duplicates) or a single passphrase recipient; armor 1/3; a fixed random tape. For EVERY native recipient of the file: identity lists with the matching identity at a random position among 0-4 non-matching ones (other key, other type, other passphrase), plus the matching identity alone. Compared: file bytes (implementation vs model), plaintext, outcome, identities consulted. distinct_nontrivial = distinct (scenario, identity list) pairs that decrypt."
+	// the primitives of C01g.v (Crypto.v) against the libraries age calls; passphrase files over them
+	c.cryptoCorrespondence(c.vol(8, 100), c.vol(1, 10))
+	c.gallinaFiles(c.vol(2, 20), 0)
 	n := c.vol(40, 700)
 	for i := 0; i < n; i++ {
 		sc := c.c01Scenario(i)
